@@ -10,7 +10,7 @@ cd $WT
 git apply $OUT/patch.diff || { echo "PATCH DOES NOT APPLY"; git -C /repo worktree remove --force $WT; exit 8; }
 echo "== suite with patch"; cargo test --workspace --no-fail-fast --offline 2>&1 | grep -E "^test result|FAILED|panicked" | head -8
 cp $OUT/demo.rs tests/zz_demo.rs
-echo "== demo with patch (expect failure)"; cargo test --offline --test zz_demo 2>&1 | grep -E "^test result|^test .* (ok|FAILED)|error\[" | head -12
+echo "== demo with patch (expect failure)"; RUSTFLAGS="${EXTRA_RUSTFLAGS:-}" cargo test --offline --test zz_demo 2>&1 | grep -E "^test result|^test .* (ok|FAILED)|error\[" | head -12
 git apply -R $OUT/patch.diff
-echo "== demo without patch (expect pass)"; cargo test --offline --test zz_demo 2>&1 | grep -E "^test result|^test .* (ok|FAILED)|error\[" | head -12
+echo "== demo without patch (expect pass)"; RUSTFLAGS="${EXTRA_RUSTFLAGS:-}" cargo test --offline --test zz_demo 2>&1 | grep -E "^test result|^test .* (ok|FAILED)|error\[" | head -12
 cd /; git -C /repo worktree remove --force $WT
